@@ -23,6 +23,7 @@ EXPLANATION = (
     "T: word widths and boundaries are equal for coloured and stripped text under the statement's side conditions, so both "
     "runs make the same choices. U (not applicable statically): the two-run relation itself, and the ASCII separator's "
     "behaviour on sequences that contain spaces."
+    " (R2) imported lemmas C10, C11.R3, C12.R3, C12.R4: every width compared in the pipeline is display_width of the text it stands for, and the hyphen splitter inspects only the neighbours of a hyphen."
 )
 ASSUMPTIONS = ["A-rustc", "A-std", "A-lb"]
 LEVEL_TEXT = (
@@ -98,3 +99,14 @@ def run(prog, rep):
     if has_feature(prog, "unicode-linebreak"):
         guarded(rep, "C11.R7", C11.STRIP, lambda: C11._strip(prog, rep))
         guarded(rep, "C11.R2", C11.UNI, lambda: C11._unicode(prog, rep))
+    # every width the pipeline compares is display_width of the text it stands for (which ignores the sequences: C10),
+    # and the hyphen splitter only looks at the neighbours of a '-' (C12.R4: "does not touch a hyphen")
+    from .. import lemmas
+    lemmas.load_all()
+    for l in ("C10", "C11.R3", "C12.R3", "C12.R4"):
+        st = lemmas.status(prog, l)
+        if st == "ok":
+            rep.ok("C13.R2", "crate", "lemma %s holds in this run" % l, "evaluated: ok", nontrivial=False)
+        else:
+            rep.violation("C13.R2", "crate", "lemma:" + l, "crate", "lemma %s is %s in this run: widths would depend on the escape "
+                          "sequences or words would be cut differently around them" % (l, st))
